@@ -30,7 +30,7 @@ MANIFEST = {
     "text": "Invariant preservation by the only element mutator plus establishment by the constructor gives normalisation after every call history by induction, including rejected calls (exact rollback is proved element-wise). The bit trick is decided for every operand of the stated width. Numeric tolerance (np.isclose) and sympy-vs-numpy storage paths are exercised by bounded histories only.",
     "note": "Trusted: Engine V encoding of item assignment on a mutable vector, z3; integer index (slices are outside the property); the bit-vector reading of Python's unbounded &,|,-,//,>> below 2^W. Bounded: everything listed as bounded in the evidence.",
 }
-TRUSTED = ["vfw Engine V", "z3 5.1 (arrays, bit-vectors)", "np.isclose / numpy item assignment (abstracted in the proof, exercised natively)"]
+TRUSTED = ["props/C12ctor.py: _check_normalization as the abstract predicate OK; np.asarray, popcount of the length, sympy subs uninterpreted", "vfw Engine V", "z3 5.1 (arrays, bit-vectors)", "np.isclose / numpy item assignment (abstracted in the proof, exercised natively)"]
 ASSUMPTIONS = ["the amplitude store behaves as a mutable sequence under integer indexing (numpy array / sympy Matrix)",
                "bit trick proved for operands below 2^16 (quick) / 2^24 (thorough) in bit-vector arithmetic with two headroom bits",
                "floating-point rounding and tolerance thresholds are not modelled in the proofs"]
